@@ -2,7 +2,7 @@
     Only statements; models and proofs are in theories/Gmpy.v.  [res] is the outcome type of the
     model: [Ok v] or the exception raised ([EValue] ValueError, [EZeroDiv] ZeroDivisionError);
     [EFuel] would be the model running out of loop fuel (excluded by the theorems). *)
-Require Import MPyC.Gmpy MPyC.GmpyRatrec MPyC.GmpyFpp.
+Require Import MPyC.Gmpy MPyC.GmpyGcdext MPyC.GmpyRatrec MPyC.GmpyFpp.
 From Coq Require Import ZArith Znumtheory List Bool.
 Import ListNotations.
 Local Open Scope nat_scope.
@@ -18,12 +18,23 @@ Theorem C25_gcdext_bezout : forall a b g s t,
 Proof. exact gcdext_spec. Qed.
 Print Assumptions C25_gcdext_bezout.
 
-(** GMP normalisation (|s| < |b|/(2g), |t| < |a|/(2g) and the listed exceptional cases): only for
-    |a|, |b| <= 64, by computation.  The unbounded statement is NOT proved (see MANIFEST note). *)
-Theorem C25_gcdext_gmp_normal_partial : forall a b, -64 <= a <= 64 -> -64 <= b <= 64 ->
-  match gcdext a b with Ok (g, s, t) => gmp_normal a b g s t | _ => false end = true.
-Proof. exact gcdext_gmp_normal_bounded. Qed.
-Print Assumptions C25_gcdext_gmp_normal_partial.
+(** GMP normalisation, for ALL a, b, exactly as the docstring of the stub states it: normally
+    |s| < |b|/(2g) and |t| < |a|/(2g); s = 0, t = sgn b when |a| = |b| = g; otherwise s = sgn a if
+    b = 0 or |b| = 2g, and t = sgn b if a = 0 or |a| = 2g.  (g = gcd >= 0 by C25_gcdext_bezout.) *)
+Theorem C25_gcdext_gmp_normal : forall a b g s t, gcdext a b = Ok (g, s, t) ->
+  (a = 0 /\ b = 0 -> g = 0 /\ s = 0 /\ t = 0) /\
+  (~ (a = 0 /\ b = 0) -> Z.abs a = g /\ Z.abs b = g -> s = 0 /\ t = Z.sgn b) /\
+  (~ (a = 0 /\ b = 0) -> ~ (Z.abs a = g /\ Z.abs b = g) ->
+     ((b = 0 \/ Z.abs b = 2 * g) -> s = Z.sgn a) /\ (~ (b = 0 \/ Z.abs b = 2 * g) -> 2 * g * Z.abs s < Z.abs b) /\
+     ((a = 0 \/ Z.abs a = 2 * g) -> t = Z.sgn b) /\ (~ (a = 0 \/ Z.abs a = 2 * g) -> 2 * g * Z.abs t < Z.abs a)).
+Proof. exact gcdext_gmp_normal_prop. Qed.
+Print Assumptions C25_gcdext_gmp_normal.
+
+(** the same as the executable predicate [gmp_normal] (which the earlier bounded check evaluated) *)
+Theorem C25_gcdext_gmp_normal_bool : forall a b g s t,
+  gcdext a b = Ok (g, s, t) -> gmp_normal a b g s t = true.
+Proof. exact gcdext_gmp_normal. Qed.
+Print Assumptions C25_gcdext_gmp_normal_bool.
 
 (** ---- invert: raises exactly when no inverse exists (or m = 0) ---- *)
 Theorem C25_invert_spec : forall x m,
@@ -215,7 +226,8 @@ Proof. exact ratrec_core_raises_iff_none. Qed.
 Print Assumptions C25_ratrec_raises_iff_none.
 
 (** ---- non-vacuity of the implications ---- *)
-Example C25_nonvacuous_gcdext : gcdext 240 (-46) = Ok (2, -9, -47) /\ gcdext (-6) 4 = Ok (2, -1, -1).
+Example C25_nonvacuous_gcdext : gcdext 240 (-46) = Ok (2, -9, -47) /\ gcdext (-6) 4 = Ok (2, -1, -1) /\
+  gcdext (-3) 2 = Ok (1, -1, -1) /\ gcdext 0 (-5) = Ok (5, 0, -1) /\ gcdext 7 7 = Ok (7, 0, 1).
 Proof. vm_compute. repeat split; reflexivity. Qed.
 Example C25_nonvacuous_invert : invert 7 (-40) = Ok 23 /\ invert 6 9 = EZeroDiv /\ invert 5 0 = EZeroDiv.
 Proof. vm_compute. repeat split; reflexivity. Qed.
